@@ -123,6 +123,9 @@ func checkC14(p *Prog, l *Ledger) {
 	if !cs.account(l) {
 		return
 	}
+	// no rewriting of operand expressions by syntactic kind between parsing and evaluation (shared with C16/C18): a folded
+	// `x || false` yields x, not the deciding operand's value
+	checkNodeKindTests(p, l, "C14/S4-no-syntactic-rewrites")
 	// ---- S1
 	n := 0
 	for _, t := range cs.Order {
